@@ -126,13 +126,20 @@ let rule_table r =
   done;
   let y = ref p1 in
   for i = 0 to n - 1 do
+    if yk = 6 || yk = 7 then begin
+      let q = p2 mod n and e = p2 / n in
+      let tall = ((i < q) = (yk = 6)) in
+      ys.(i) <- Float.ldexp (float_of_int (p1 + next () mod 16)) (if tall then e else 0) *. uy end
+    else
     let v =
       if yk = 0 then p1
       else if yk = 1 then p1 + p2 * i
       else if yk = 2 then (let q = next () mod (2 * p2 + 1) in p1 + q - p2)
       else if yk = 3 then ((if i > 0 then (let q = next () mod (2 * p2 + 1) in y := !y + q - p2)); !y)
       else if yk = 4 then p1 + p2 * (if i mod 16 < 8 then i mod 16 else 16 - i mod 16)
-      else p1 + (if i = p2 then 1000 else 0) in
+      else if yk = 5 then p1 + (if i = p2 then 1000 else 0)
+      else if yk = 8 then p1 + (if i mod 2 = 0 then p2 else - p2) * i
+      else p1 + (if i mod 2 = 0 then p2 else - p2) * (n - i) in
     ys.(i) <- float_of_int v *. uy
   done;
   (xs, ys)
